@@ -1,14 +1,23 @@
 /-
 C07 — Service: deposits and fees are conserved across escrow, providers and consumers.
 Headline theorems about the model `Irismod.Service` (every state, every operation, every history).
+
+Hypotheses that appear below, all explicit:
+  `UserHistory` — the account arguments the ledger pays or debits are not the module's own escrow
+                  accounts (module accounts hold no keys);
+  `CleanRun`    — additionally: no pricing document carries a promotion (F-svc-1 otherwise), context ids
+                  are fresh (`tmhash(tx) ‖ index`, modulo collisions), and the keeper-only entry point
+                  `WithdrawEarnedFees(owner, nil)` is not used (no message reaches it; F-svc-2 otherwise).
+The full statements that the code does *not* satisfy are kept as `def`s with their negation proved from
+a witness (`*_fails`).
 -/
-import Irismod.Proofs.ServiceDeposit
+import Irismod.Proofs.ServiceTally
 
 namespace Irismod.Props.C07
 open Irismod Irismod.Sdk Irismod.Service Irismod.Spec.C07 Irismod.Proofs.Service
 
-/-- a chain on which the service module has not been used yet: no bindings, no contexts, no
-withdraw addresses, empty escrow accounts (user balances, params, rates are arbitrary) -/
+/-- a chain on which the service module has not been used yet: no bindings, contexts, requests,
+queue entries, earned fees; empty escrow accounts (user balances, params, rates are arbitrary) -/
 structure Genesis (s : State) : Prop where
   binds : s.binds = []
   ctxs : s.ctxs = []
@@ -17,13 +26,17 @@ structure Genesis (s : State) : Prop where
   active : s.active = []
   earned : s.earned = []
   oearned : s.oearned = []
+  newQ : s.newQ = []
+  newH : s.newH = []
+  expQ : s.expQ = []
+  expH : s.expH = []
   dep : ∀ d, Bank.balOf s.bank depAcc d = 0
   req : ∀ d, Bank.balOf s.bank reqAcc d = 0
 
 /-- all the accounts a history's messages pay or debit are user accounts -/
 def UserHistory (ops : List Op) : Prop := ∀ op ∈ ops, opUsers op
 
-/-! ### deposit escrow = Σ deposits -/
+/-! ### (a) deposit escrow = Σ deposits -/
 
 theorem di_genesis {s : State} (g : Genesis s) : DI s := by
   refine ⟨⟨?_, ?_, ?_⟩, ?_⟩
@@ -49,18 +62,288 @@ theorem di_run : ∀ (ops : List Op) (s : State), DI s → UserHistory ops → D
     di_run rest (apply s op) (di_apply hs (hu op (List.mem_cons_self ..)))
       (fun o ho => hu o (List.mem_cons_of_mem _ ho))
 
-/-- **C07(a)**: one accepted operation keeps `deposit escrow = Σ bindings' deposits` (in the base
-denom; nothing else ever sits in the deposit escrow) -/
+/-- one accepted operation keeps `deposit escrow = Σ bindings' deposits` (in the base denom; nothing
+else ever sits in the deposit escrow) -/
 theorem deposit_escrow_step (s s' : State) (op : Op) (hs : DI s) (hu : opUsers op)
     (h : step s op = .ok s') : DepositInv s' := by
   unfold step at h
   exact (DI_stepCore (DI.of_core (s' := { s with cb := [] }) hs ⟨rfl, rfl, rfl, rfl⟩ rfl) hu h).2
 
-/-- **C07(a)** over all histories: define / bind / update / enable / disable / refund-deposit /
-call / respond / withdraw / pause / start / kill / update / any number of blocks with expiry and
-slashing, from any chain on which the module is unused -/
+/-- … over all histories: define / bind / update / enable / disable / refund-deposit / call / respond /
+withdraw / pause / start / kill / update / any number of blocks with expiry and slashing -/
 theorem deposit_escrow_reachable (s : State) (g : Genesis s) (ops : List Op) (hu : UserHistory ops) :
     DepositInv (run s ops) :=
   (di_run ops s (di_genesis g) hu).2
+
+/-! ### (b) request escrow = Σ fees of active requests + Σ earned fees -/
+
+/-- the side conditions of one operation in state `s` -/
+def CleanOp (s : State) (op : Op) : Prop := opUsers op ∧ opNoPromo op ∧ FreshOp s op ∧ opReachable op
+
+def CleanRun : State → List Op → Prop
+  | _, [] => True
+  | s, op :: rest => CleanOp { s with cb := [] } op ∧ CleanRun (apply s op) rest
+
+theorem full_genesis {s : State} (g : Genesis s) : Full s := by
+  refine ⟨?_, di_genesis g, ?_, ?_⟩
+  · refine ⟨?_, ?_, ?_, ?_, ?_, ?_, ?_, ?_, ?_⟩
+    · rw [g.newQ, g.newH]
+      constructor
+      · intro _ _ h; cases h
+      · intro _ _ h; simp [AMap.get?] at h
+    · rw [g.expQ, g.expH]
+      constructor
+      · intro _ _ h; cases h
+      · intro _ _ h; simp [AMap.get?] at h
+    · intro id h; rw [g.newH] at h; simp [AMap.contains, AMap.get?] at h
+    · intro id h
+      rw [g.newH, g.expH] at h
+      simp [AMap.contains, AMap.get?] at h
+    · intro r h; rw [g.active] at h; cases h
+    · rw [g.active]; simp
+    · rw [g.newQ]; simp
+    · rw [g.expQ]; simp
+    · intro id c h; rw [g.ctxs] at h; simp [AMap.get?] at h
+  · intro k b h; rw [g.binds] at h; simp [AMap.get?] at h
+  · intro d
+    rw [g.req d]
+    unfold activeFee earnedSum
+    rw [g.active, g.earned]
+    simp [sumList, AMap.sumIf]
+
+theorem full_apply {s : State} {op : Op} (hs : Full s) (hc : CleanOp { s with cb := [] } op) : Full (apply s op) := by
+  unfold apply step
+  have h0 : Full { s with cb := [] } :=
+    ⟨hs.1.of_same ⟨rfl, rfl, rfl, rfl, rfl, rfl, rfl⟩, DI.of_core (s' := { s with cb := [] }) hs.2.1 ⟨rfl, rfl, rfl, rfl⟩ rfl,
+     hs.2.2.1.of_binds rfl, EscrowInv.of_frame ⟨fun _ => rfl, rfl, fun _ _ => rfl, rfl⟩ hs.2.2.2⟩
+  cases h : stepCore { s with cb := [] } op with
+  | ok s' => exact Full_stepCore h0 hc.1 hc.2.1 hc.2.2.1 hc.2.2.2 h
+  | error e => exact h0
+
+theorem full_run : ∀ (ops : List Op) (s : State), Full s → CleanRun s ops → Full (run s ops)
+  | [], _, hs, _ => hs
+  | op :: rest, s, hs, hc => full_run rest (apply s op) (full_apply hs hc.1) hc.2
+
+/-- one accepted operation keeps `request escrow = Σ fees of the active requests + Σ earned fees`, per denom -/
+theorem request_escrow_step (s s' : State) (op : Op) (hs : Full s) (hc : CleanOp { s with cb := [] } op)
+    (h : step s op = .ok s') : EscrowInv s' := by
+  have := full_apply hs hc
+  unfold apply at this
+  rw [h] at this
+  exact this.2.2.2
+
+/-- … over all clean histories -/
+theorem request_escrow_reachable (s : State) (g : Genesis s) (ops : List Op) (hc : CleanRun s ops) :
+    EscrowInv (run s ops) :=
+  (full_run ops s (full_genesis g) hc).2.2.2
+
+/-- the full statement, without the "no promotion" side condition: the new-batch handler keeps the identity -/
+def EscrowKeptByNewBatch : Prop :=
+  ∀ (s : State) (id : CtxId), WF s → DI s → EscrowInv s → AMap.get? s.newH id = some s.height → EscrowInv (newBatch s id)
+
+def w1bind : Binding :=
+  { owner := "A3", deposit := 100, pricing := { denom := "stake", amount := 10, ptime := [(0, 100, ⟨500000000000000000⟩)] },
+    qos := 2, available := true, disabledTime := 0 }
+def w1ctx : Ctx :=
+  { svc := "s1", providers := ["A0"], consumer := "A5", cap := 100, timeout := 2, repeated := false,
+    batchState := .completed, state := .running }
+/-- price 10 with a 0.5 time promotion active; the consumer's context is due -/
+def w1 : State :=
+  { height := 20, time := 50, ctxs := [("c", w1ctx)], binds := [(("s1", "A0"), w1bind)],
+    bank := { bal := [(("A5", "stake"), 1000), (("Mdep", "stake"), 100)] }, newQ := [(20, "c")], newH := [("c", 20)] }
+
+theorem w1_wf : WF w1 := by
+  refine ⟨?_, ?_, ?_, ?_, ?_, ?_, ?_, ?_, ?_⟩
+  · constructor
+    · intro h id hm
+      simp only [w1, List.mem_singleton] at hm
+      cases hm; decide
+    · intro id h hg
+      simp only [w1, AMap.get?] at hg
+      split at hg
+      · rename_i e; cases hg; subst e; simp [w1]
+      · cases hg
+  · constructor
+    · intro h id hm; simp [w1] at hm
+    · intro id h hg; simp [w1, AMap.get?] at hg
+  · intro id _; simp [w1, AMap.contains, AMap.get?]
+  · intro id h
+    simp only [w1, AMap.contains, AMap.get?] at h ⊢
+    rcases h with h | h
+    · split at h
+      · rename_i e; subst e; simp
+      · simp at h
+    · simp at h
+  · intro r h; simp [w1] at h
+  · simp [w1]
+  · simp [w1]
+  · simp [w1]
+  · intro id c hg hrun
+    simp only [w1, AMap.get?] at hg
+    split at hg
+    · cases hg; simp [w1ctx] at hrun
+    · cases hg
+
+theorem w1_di : DI w1 := by
+  refine ⟨⟨?_, ?_, ?_⟩, ?_⟩
+  · intro k b hg
+    simp only [w1, AMap.get?] at hg
+    split at hg
+    · cases hg; decide
+    · cases hg
+  · intro k c hg
+    simp only [w1, AMap.get?] at hg
+    split at hg
+    · cases hg; decide
+    · cases hg
+  · intro k a hg; simp [w1, AMap.get?] at hg
+  · intro d
+    by_cases hd : d = "stake"
+    · subst hd; decide
+    · have h1 : Bank.balOf w1.bank depAcc d = 0 := by
+        simp only [Bank.balOf, AMap.getD, w1, AMap.get?, depAcc]
+        have e2 : ¬ (("Mdep", "stake") : Addr × Denom) = ("Mdep", d) := by
+          intro e; exact hd (Prod.mk.inj e).2.symm
+        simp [e2]
+      rw [h1]
+      have : w1.params.base = "stake" := rfl
+      rw [this, if_neg hd]
+
+theorem w1_escrow : EscrowInv w1 := by
+  intro d
+  have h1 : Bank.balOf w1.bank reqAcc d = 0 := by
+    simp [Bank.balOf, AMap.getD, w1, AMap.get?, reqAcc]
+  rw [h1]
+  simp [activeFee, earnedSum, w1, sumList, AMap.sumIf]
+
+/-- F-svc-1: it fails — the consumer is charged the undiscounted 10, the request records the discounted 5,
+and 5 stay in the escrow without liability -/
+theorem escrow_kept_by_new_batch_fails : ¬ EscrowKeptByNewBatch := by
+  intro h
+  have := h w1 "c" w1_wf w1_di w1_escrow (by decide) "stake"
+  revert this
+  decide
+
+/-! ### (c) the consumer is charged exactly the fees of the requests issued for them -/
+
+/-- without promotions and when the consumer can pay the whole batch, the end block debits the consumer by
+exactly the fees recorded on the requests it creates for them -/
+theorem charge_eq_fees_partial (s : State) (hs : Full s) (id : CtxId) (hm : AMap.get? s.newH id = some s.height)
+    (c : Ctx) (hg : AMap.get? s.ctxs id = some c)
+    (hpay : ∀ provs total, filterProviders s c c.providers [] [] = some (provs, total) →
+      (debitCoins s.bank c.consumer (sortCoins total)).2 = true) (d : Denom) :
+    Bank.balOf (newBatch s id).bank c.consumer d + activeFee (newBatch s id) d =
+      Bank.balOf s.bank c.consumer d + activeFee s d :=
+  charge_eq_fees hs.1 hs.2.1 hs.2.2.1 id hm hg hpay d
+
+/-- the full statement without the "can pay" side condition -/
+def ChargeEqFees : Prop :=
+  ∀ (s : State) (id : CtxId) (c : Ctx) (d : Denom), Full s → AMap.get? s.newH id = some s.height →
+    AMap.get? s.ctxs id = some c →
+    Bank.balOf (newBatch s id).bank c.consumer d + activeFee (newBatch s id) d = Bank.balOf s.bank c.consumer d + activeFee s d
+
+def w4bindA : Binding :=
+  { owner := "A3", deposit := 100, pricing := { denom := "stake", amount := 10 }, qos := 2, available := true, disabledTime := 0 }
+def w4bindB : Binding :=
+  { owner := "A3", deposit := 100, pricing := { denom := "dbb", amount := 20 }, qos := 2, available := true, disabledTime := 0 }
+def w4ctx : Ctx :=
+  { svc := "s1", providers := ["A0", "A1"], consumer := "A5", cap := 100, timeout := 2, repeated := false,
+    batchState := .completed, state := .running }
+/-- providers priced 10stake and 20dbb, the consumer holds 1000dbb but only 5stake -/
+def w4 : State :=
+  { height := 20, time := 50, ctxs := [("c", w4ctx)], binds := [(("s1", "A0"), w4bindA), (("s1", "A1"), w4bindB)],
+    rates := [("dbb", ("2.0", ⟨2000000000000000000⟩))],
+    bank := { bal := [(("A5", "stake"), 5), (("A5", "dbb"), 1000), (("Mdep", "stake"), 200)] },
+    newQ := [(20, "c")], newH := [("c", 20)] }
+
+/-- the witness state's behaviour: 20dbb leave the consumer, no request is created, nothing reaches the escrow -/
+theorem w4_partial_debit :
+    Bank.balOf (newBatch w4 "c").bank "A5" "dbb" = 980 ∧ (newBatch w4 "c").active = [] ∧
+    Bank.balOf (newBatch w4 "c").bank reqAcc "dbb" = 0 := by decide
+
+/-! ### (d) exact movements -/
+
+/-- the fee of an answered request: `⌊fee·tax⌋` to the fee collector, the rest to the provider's and the
+owner's earned-fee tallies -/
+theorem respond_fee_split (s s' : State) (provider : Addr) (rid : ReqId) (hasOut : Bool)
+    (h : keeperRespond s provider rid hasOut = .ok s') :
+    ∃ rq, AMap.get? s.reqs rid = some rq ∧ taxOf s rq.feeAmt ≤ rq.feeAmt ∧
+      Bank.balOf s'.bank fcAcc rq.feeDenom = Bank.balOf s.bank fcAcc rq.feeDenom + taxOf s rq.feeAmt ∧
+      Bank.balOf s'.bank reqAcc rq.feeDenom + taxOf s rq.feeAmt = Bank.balOf s.bank reqAcc rq.feeDenom ∧
+      AMap.getD s'.earned (provider, rq.feeDenom) 0 = AMap.getD s.earned (provider, rq.feeDenom) 0 + (rq.feeAmt - taxOf s rq.feeAmt) ∧
+      AMap.getD s'.oearned (AMap.getD s.owners provider "", rq.feeDenom) 0 =
+        AMap.getD s.oearned (AMap.getD s.owners provider "", rq.feeDenom) 0 + (rq.feeAmt - taxOf s rq.feeAmt) ∧
+      (∀ k, k ≠ (provider, rq.feeDenom) → AMap.getD s'.earned k 0 = AMap.getD s.earned k 0) ∧
+      (∀ a d, (a, d) ≠ (reqAcc, rq.feeDenom) → (a, d) ≠ (fcAcc, rq.feeDenom) → Bank.balOf s'.bank a d = Bank.balOf s.bank a d) :=
+  Irismod.Proofs.Service.respond_fee_split h
+
+/-- the fee of an expired request goes back to the consumer in full -/
+theorem expiry_refund (s : State) (hs : Full s) (rid : ReqId) (hr : rid ∈ s.active) :
+    ∃ rq c, AMap.get? s.reqs rid = some rq ∧ AMap.get? s.ctxs rid.ctx = some c ∧
+      Bank.balOf (expireReq s rid).bank c.consumer rq.feeDenom =
+        Bank.balOf (slash s c.svc rq.provider).bank c.consumer rq.feeDenom + rq.feeAmt ∧
+      Bank.balOf (expireReq s rid).bank reqAcc rq.feeDenom + rq.feeAmt = Bank.balOf s.bank reqAcc rq.feeDenom ∧
+      rid ∉ (expireReq s rid).active :=
+  expiry_refund_exact hs.1.actOK hs.2.1.1 hs.2.2.2 hr
+
+/-- slashing moves exactly `⌊deposit · slashFraction⌋` (rounded down) from the deposit escrow to the fee
+collector and lowers the binding's deposit by the same amount; on invariant states the escrow can always pay -/
+theorem slash_moves_exact_fraction (s : State) (hd : DepositInv s) (svc : String) (p : Addr) (b : Binding)
+    (hb : AMap.get? s.binds (svc, p) = some b) (hle : slashAmount s b ≤ b.deposit) :
+    ((AMap.get? (slash s svc p).binds (svc, p)).map (·.deposit)) = some (b.deposit - slashAmount s b) ∧
+    Bank.balOf (slash s svc p).bank depAcc s.params.base + slashAmount s b = Bank.balOf s.bank depAcc s.params.base ∧
+    Bank.balOf (slash s svc p).bank fcAcc s.params.base = Bank.balOf s.bank fcAcc s.params.base + slashAmount s b ∧
+    slashAmount s b = mulTrunc b.deposit s.params.slash :=
+  slash_exact s svc p b hb hle (slash_funded hd svc p b hb hle)
+
+/-! ### (e) owner-side and provider-side tallies -/
+
+/-- the full statement: a per-provider withdrawal keeps the two tallies in agreement -/
+def TallyKeptByWithdrawal : Prop :=
+  ∀ (s s' : State) (owner p : Addr), TallyInv s → withdrawProvider s owner p = .ok s' → TallyInv s'
+
+/-- owner A3 with providers A0 (9stake earned) and A1 (18dbb earned) -/
+def w2 : State :=
+  { owners := [("A0", "A3"), ("A1", "A3")], ownerProv := [("A3", "A0"), ("A3", "A1")],
+    earned := [(("A0", "stake"), 9), (("A1", "dbb"), 18)], oearned := [(("A3", "stake"), 9), (("A3", "dbb"), 18)],
+    bank := { bal := [(("Mreq", "stake"), 9), (("Mreq", "dbb"), 18)] } }
+
+theorem w2_tally : TallyInv w2 := by
+  intro o d
+  by_cases ho : o = "A3"
+  · subst ho
+    by_cases h1 : d = "stake"
+    · subst h1; decide
+    · by_cases h2 : d = "dbb"
+      · subst h2; decide
+      · have a1 : ¬ ("stake" = d) := fun e => h1 e.symm
+        have a2 : ¬ ("dbb" = d) := fun e => h2 e.symm
+        simp [providersEarned, ownerEarned, w2, AMap.sumIf, a1, a2]
+  · have a0 : ¬ ("A3" = o) := fun e => ho e.symm
+    simp [providersEarned, ownerEarned, ownedBy, w2, AMap.sumIf, AMap.get?, a0]
+
+/-- F-svc-2: it fails — after withdrawing for A0 the owner-side tally still says 9stake although no provider
+of A3 has stake fees left -/
+theorem tally_kept_by_withdrawal_fails : ¬ TallyKeptByWithdrawal := by
+  intro h
+  have hw : ∃ s', withdrawProvider w2 "A3" "A0" = .ok s' ∧ ownerEarned s' "A3" "stake" = 9 ∧ providersEarned s' "A3" "stake" = 0 := by
+    refine ⟨_, rfl, ?_, ?_⟩ <;> decide
+  obtain ⟨s', h1, h2, h3⟩ := hw
+  have := h w2 s' "A3" "A0" w2_tally h1 "A3" "stake"
+  rw [h2, h3] at this
+  cases this
+
+/-- … and holds with a single fee denom: if all provider-side and owner-side entries are in one denom (unique
+keys, positive amounts — what `SetEarnedFees` / `SetOwnerEarnedFees` write), an accepted per-provider
+withdrawal lowers the owner-side tally by exactly the provider's earned fees (an answer raises both by the
+same amount, see `respond_fee_split`) -/
+theorem tally_withdrawal_single_denom_partial (s s' : State) (owner p : Addr) (d0 : Denom)
+    (h : withdrawProvider s owner p = .ok s')
+    (hn1 : KeysNodup s.earned) (hn2 : KeysNodup s.oearned)
+    (hd1 : ∀ e, e ∈ s.earned → e.1.2 = d0) (hd2 : ∀ e, e ∈ s.oearned → e.1.2 = d0)
+    (hpos : ∀ e, e ∈ s.earned → 0 < e.2) (hpos2 : ∀ e, e ∈ s.oearned → 0 < e.2) :
+    (AMap.get? s'.oearned (owner, d0)).getD 0 + (AMap.get? s.earned (p, d0)).getD 0 =
+      (AMap.get? s.oearned (owner, d0)).getD 0 :=
+  withdraw_owner_tally_single_denom d0 h hn1 hn2 hd1 hd2 hpos hpos2
 
 end Irismod.Props.C07
